@@ -464,3 +464,138 @@ Theorem machine_lives_on_nonvacuous :
   length (queue s) = 1 /\ length (txs (fst (fst (drain 10 s None)))) = 3.
 Proof. exact C08C11Proofs.machine_lives_on_nonvacuous_lemma. Qed.
 Print Assumptions machine_lives_on_nonvacuous.
+
+(* ------------------------------------------------------------------ *)
+(* whole runs: the clauses of Spec/C08.v c08_codes for ARBITRARY       *)
+(* scripts (faults anywhere, any number)                               *)
+(* ------------------------------------------------------------------ *)
+
+(* range side conditions (C08C11Proofs.states_in_range / calls_in_range /
+   actions_in_range are the boolean tests "every state mentioned by the
+   top-level calls / by the scripted nested calls is < length sch") *)
+
+(* (1) code 80: the caller always sees tick parity = activity *)
+Theorem run_parity :
+  forall fuel sch tp hl ex bs ql acts cs,
+    refs_ok sch = true -> ex < length sch ->
+    C08C11Proofs.calls_in_range sch cs = true ->
+    C08C11Proofs.actions_in_range sch acts = true ->
+    forallb (fun c => parity_ok (co_time c) (co_active c))
+            (tr_calls (run fuel (init_st sch tp hl ex bs ql acts) cs)) = true.
+Proof. exact C08C11Proofs.run_parity_lemma. Qed.
+Print Assumptions run_parity.
+
+(* (2) codes 84, 86, 890, 891, 892: no record of the trace violates a
+   per-transition clause, given fuel *)
+Theorem run_txs_fault_codes :
+  forall fuel sch tp hl ex bs ql acts cs,
+    refs_ok sch = true -> ex < length sch ->
+    C08C11Proofs.calls_in_range sch cs = true ->
+    C08C11Proofs.actions_in_range sch acts = true ->
+    let tr := run fuel (init_st sch tp hl ex bs ql acts) cs in
+    tr_fuel_ok tr = true ->
+    txs_fault_codes sch tp ex acts (tr_hlog tr) (tr_txs tr) = [].
+Proof. exact C08C11Proofs.run_txs_fault_codes_lemma. Qed.
+Print Assumptions run_txs_fault_codes.
+
+Theorem run_no_record_codes :
+  forall fuel sch tp hl ex bs ql acts cs (c : N),
+    refs_ok sch = true -> ex < length sch ->
+    C08C11Proofs.calls_in_range sch cs = true ->
+    C08C11Proofs.actions_in_range sch acts = true ->
+    let tr := run fuel (init_st sch tp hl ex bs ql acts) cs in
+    tr_fuel_ok tr = true ->
+    ~ In c (txs_fault_codes sch tp ex acts (tr_hlog tr) (tr_txs tr)).
+Proof. exact C08C11Proofs.run_no_record_codes_lemma. Qed.
+Print Assumptions run_no_record_codes.
+
+(* the ingredients: slices of the indexed log are stable as it grows, and
+   tx_fault_codes is the code-84 clause (the only one that looks at the next
+   record) followed by the clauses 86 / 89x *)
+Theorem tx_entries_stable :
+  forall (hl more : list hlentry) (t : txrec),
+    tx_hto t <= length hl -> tx_entries (hl ++ more) t = tx_entries hl t.
+Proof. exact C08C11Proofs.tx_entries_stable. Qed.
+Print Assumptions tx_entries_stable.
+
+Theorem tx_fault_codes_split :
+  forall sc topo ex acts hl t next,
+    tx_fault_codes sc topo ex acts hl t next
+    = (if C08C11Proofs.needs_exc_es ex acts (tx_entries hl t) t then
+         match next with
+         | Some n => if C08C11Proofs.is_exc_rec ex n then [] else [84%N]
+         | None => [84%N]
+         end
+       else [])
+      ++ C08C11Proofs.codesB_es sc topo acts (tx_entries hl t) t.
+Proof. exact C08C11Proofs.tx_fault_codes_split. Qed.
+Print Assumptions tx_fault_codes_split.
+
+(* one transition of a well-formed machine: its record passes 86 / 89x
+   against the final log, and a panic that asks for Exception leaves
+   Add[Exception] at the front of the queue *)
+Theorem run_tx_record_codes :
+  forall sch tp ex acts0,
+    ex < length sch -> refs_ok sch = true ->
+    forall (s : st) (mu : mutation) (s' : st) (r : result),
+      (crashed s = false /\ loop_dead s = false /\ hung s = false) ->
+      actions s = skipn (length (hlog s)) acts0 -> topo s = tp ->
+      C08C11Proofs.WF sch ex s ->
+      C08C11Proofs.states_in_range sch (mu_called mu) = true ->
+      run_tx s mu = (s', r) ->
+      exists rec, txs s' = rec :: txs s /\
+        (C08C11Proofs.is_exc_mut ex mu = true -> C08C11Proofs.is_exc_rec ex rec = true) /\
+        tx_hto rec = length (hlog s') /\
+        C08C11Proofs.codesB_es sch tp acts0 (tx_entries (rev (hlog s')) rec) rec = [] /\
+        (C08C11Proofs.needs_exc_es ex acts0 (tx_entries (rev (hlog s')) rec) rec = true ->
+         hd_error (queue s') = Some (C08C11Proofs.exc_mut ex)).
+Proof. exact C08C11Proofs.run_tx_rec_codes. Qed.
+Print Assumptions run_tx_record_codes.
+
+(* (3) the property: under the range conditions, with fuel, and with every
+   scripted timeout reported on ErrInternal, no code at all - whatever the
+   script (auto transitions and multiple faults included) *)
+Theorem c08_holds :
+  forall fuel sch tp hl ex bs ql acts cs interr,
+    refs_ok sch = true -> ex < length sch ->
+    C08C11Proofs.calls_in_range sch cs = true ->
+    C08C11Proofs.actions_in_range sch acts = true ->
+    let tr := run fuel (init_st sch tp hl ex bs ql acts) cs in
+    tr_fuel_ok tr = true ->
+    count_stalls acts (length (tr_hlog tr)) <= interr ->
+    c08_codes sch tp ex acts interr tr = [].
+Proof. exact C08C11Proofs.c08_holds_lemma. Qed.
+Print Assumptions c08_holds.
+
+(* a panic in the State handler of 1 (first call) and one in the Enter
+   handler of 2 (second call); each is followed by Add[Exception] *)
+Theorem c08_holds_nonvacuous :
+  let tr := run 20 (init_st C08C11Proofs.ex_sch [] [] 0 C08C11Proofs.ex_run_bs 100
+                      C08C11Proofs.ex_run_acts) C08C11Proofs.ex_run_cs in
+  refs_ok C08C11Proofs.ex_sch = true /\ 0 < length C08C11Proofs.ex_sch /\
+  C08C11Proofs.calls_in_range C08C11Proofs.ex_sch C08C11Proofs.ex_run_cs = true /\
+  C08C11Proofs.actions_in_range C08C11Proofs.ex_sch C08C11Proofs.ex_run_acts = true /\
+  tr_fuel_ok tr = true /\
+  count_stalls C08C11Proofs.ex_run_acts (length (tr_hlog tr)) <= 0 /\
+  map hl_key (tr_hlog tr) = [HState 1; HEnter 2] /\
+  fault_at C08C11Proofs.ex_run_acts 0 = FPanic /\
+  fault_at C08C11Proofs.ex_run_acts 1 = FPanic /\
+  map tx_called (tr_txs tr) = [[1]; [0]; [3]; [2]; [0]] /\
+  map tx_accepted (tr_txs tr) = [false; true; true; false; true] /\
+  c08_codes C08C11Proofs.ex_sch [] 0 C08C11Proofs.ex_run_acts 0 tr = [].
+Proof. exact C08C11Proofs.c08_holds_nonvacuous_lemma. Qed.
+Print Assumptions c08_holds_nonvacuous.
+
+(* the range condition cannot be dropped from the rollback clause: a called
+   state outside the schema becomes "active" without a clock slot, and
+   Spec/C08.v reads activity from the clock *)
+Theorem c08_rollback_needs_range_refuted :
+  exists fuel sch tp hl ex bs ql acts cs,
+    refs_ok sch = true /\ ex < length sch /\
+    C08C11Proofs.actions_in_range sch acts = true /\
+    C08C11Proofs.calls_in_range sch cs = false /\
+    tr_fuel_ok (run fuel (init_st sch tp hl ex bs ql acts) cs) = true /\
+    let tr := run fuel (init_st sch tp hl ex bs ql acts) cs in
+    In 890%N (txs_fault_codes sch tp ex acts (tr_hlog tr) (tr_txs tr)).
+Proof. exact C08C11Proofs.c08_rollback_needs_range_refuted_lemma. Qed.
+Print Assumptions c08_rollback_needs_range_refuted.
